@@ -606,9 +606,17 @@ func runCheck(id, tier string) int {
 	var perOut []map[string]any
 	for _, n := range perNames {
 		a := per[n]
-		perOut = append(perOut, map[string]any{"scenario": n, "K": a.K, "E": a.E, "executions": a.Owned, "completed_cost_bound": a.DoneCost, "max_decisions": a.MaxDepth, "wall_s": round1(a.Wall)})
+		// distinct observable outcomes of this scenario (outcome digests start with the scenario name):
+		// one outcome from many schedules means nothing collided, i.e. the scenario is vacuous
+		nOut := 0
+		for o := range outcomesSeen {
+			if strings.HasPrefix(o, n+":") || strings.HasPrefix(o, n+" ") {
+				nOut++
+			}
+		}
+		perOut = append(perOut, map[string]any{"scenario": n, "K": a.K, "E": a.E, "executions": a.Owned, "distinct_outcomes": nOut, "completed_cost_bound": a.DoneCost, "max_decisions": a.MaxDepth, "wall_s": round1(a.Wall)})
 		if os.Getenv("VF_VERBOSE") != "" {
-			fmt.Fprintf(os.Stderr, "  %-50s K=%d E=%d execs=%d done_cost=%d depth=%d wall=%.1fs\n", n, a.K, a.E, a.Owned, a.DoneCost, a.MaxDepth, a.Wall)
+			fmt.Fprintf(os.Stderr, "  %-50s K=%d E=%d execs=%d outcomes=%d done_cost=%d depth=%d wall=%.1fs\n", n, a.K, a.E, a.Owned, nOut, a.DoneCost, a.MaxDepth, a.Wall)
 		}
 	}
 	cov["per_scenario"] = perOut
